@@ -230,7 +230,13 @@ func scenarioOverride(c *vrun.Ctx) {
 	for _, pr := range props {
 		// cliCur: the command line names the value that is in effect anyway (the default, the file's
 		// value or what an API update just set): it is still a command-line value and must keep winning
+		// apiBad: an API update that gives the property a value verification refuses ("" for a listen
+		// address). It must be refused also while a command-line value hides it from the running process:
+		// the file would otherwise hold a configuration the next start cannot load.
 		events := []string{"cli0", "cliCur", "api0", "api1", "restart"}
+		if pr.path == "proxy.listen" {
+			events = append(events, "apiBad")
+		}
 		n := len(events)
 		total := 1
 		for i := 0; i < p.Depth; i++ {
@@ -273,6 +279,15 @@ func scenarioOverride(c *vrun.Ctx) {
 						v := lookup(cfg, pr.path).Addr().MethodByName("Read").Call(nil)[0]
 						lookup(cfg, pr.path).Addr().MethodByName("Overwrite").Call([]reflect.Value{v})
 						cliActive, cliVal = true, exact(v)
+					case "apiBad":
+						st, err := UpdatePartialFromConfig(cfg, doc(pr.path, ""))
+						if err == nil && st != UpdateStatusFailed {
+							problem, kind = fmt.Sprintf("step %d: the update %s=\"\" was accepted (command-line value active: %v)", step, pr.path, cliActive), "invalid-value-accepted"
+							if _, lerr := load(configPath.Path); lerr != nil {
+								problem += fmt.Sprintf("; the file it wrote does not load: %v", lerr)
+							}
+							return
+						}
 					case "api0", "api1":
 						v := pr.api[int(ev[3]-'0')]
 						if _, err := UpdatePartialFromConfig(cfg, doc(pr.path, v)); err != nil {
@@ -306,7 +321,10 @@ func scenarioOverride(c *vrun.Ctx) {
 						return
 					}
 					// the file never contains the command-line value
-					if onDisk, err := load(configPath.Path); err == nil {
+					if onDisk, err := load(configPath.Path); err != nil {
+						problem, kind = fmt.Sprintf("step %d (%s): the configuration file no longer loads: %v", step, ev, err), "file-does-not-load"
+						return
+					} else {
 						if got := snapshot(onDisk)[pr.path]; got != fileVal {
 							problem, kind = fmt.Sprintf("step %d (%s): the file holds %s, expected %s", step, ev, got, fileVal), "file-holds-wrong-value"
 							return
